@@ -49,11 +49,25 @@ var HTMLURLAttrs = set(`
  background classid codebase longdesc profile icon
  xmlns`)
 
+// HTML Living Standard, "Attributes" index: attributes whose value type is "Text", "Regular
+// expression matching the JavaScript Pattern production", "CSS declarations", "event handler
+// content attribute" (on*, matched by prefix in the rule) or "The source of an iframe srcdoc
+// document": every white space character of the value is part of it, so collapsing runs of white
+// space or trimming the ends changes the value.
+var HTMLWhitespaceSignificantAttrs = set(`
+ abbr alt content dirname download label name pattern placeholder prompt srcdoc standby style
+ summary title value`)
+
 // HTML Living Standard §13.1.2: raw text elements (script, style) and escapable raw text
 // elements (textarea, title); §13.2.6.4.7 elements parsed with the generic raw text
 // algorithm (iframe, noembed, noframes, xmp, noscript with scripting, plaintext).
 // svg and math are tokenised as a whole by the parse/v2 HTML lexer (SvgToken / MathToken).
 var HTMLRawTextElements = set(`script style textarea title iframe noembed noframes xmp noscript plaintext svg math`)
+
+// … of which the *raw text* elements proper (HTML §13.1.2, §13.2.5.2-5: raw text, script data and
+// PLAINTEXT states): no character references, no markup — `&amp;` is the five characters `&amp;`.
+// (title and textarea are escapable raw text: references are decoded there.)
+var HTMLRawTextNoReferences = set(`script style xmp iframe noembed noframes plaintext`)
 
 // HTML Living Standard §15 (Rendering): elements whose boundary makes adjacent
 // inter-element whitespace insignificant for rendering.
@@ -95,7 +109,7 @@ var HTMLOptionalEndTag = set(`
 // … and of those, the elements after whose end tag a conforming document has nothing but an element
 // that closes them anyway, or the end of the parent (§4.9, §4.4.5-4.4.11, §4.10.10: the content models
 // of table, thead/tbody/tfoot, tr, ul/ol/menu, dl, select/optgroup contain no text and no other flow
-// content) — only for these may the end tag be dropped without looking at what follows. Not among them:
+// content besides script-supporting elements, which R03.11 handles separately) — only for these may the end tag be dropped without looking at what follows. Not among them:
 // p (flow content follows), rt/rp/rb/rtc (ruby holds base text between the annotations:
 // `<ruby>漢<rt>kan</rt>字<rt>ji</rt></ruby>`), html/head/body (comments, white space).
 var HTMLEndTagOmissibleBlind = set(`li dt dd optgroup option colgroup caption thead tbody tfoot tr td th`)
